@@ -90,7 +90,7 @@ theorem encrypt_tie (P : Prims) {S : AgeModel.Stream.DstSpec} {ρ δ ω : Type} 
       match encryptInit P tape (rs.map E.recOf) E.hdrSegs (E.absD d) with
       | (.ok (w, k, t'), d2) =>
           res.1 = E.mkW k res.2.2.1 ∧ res.2.1 = none ∧ E.absD res.2.2.1 = d2 ∧ res.2.2.2 = t' ∧ w = AgeModel.Stream.Writer.new d2
-      | (.error e, d2) => GoTie.encErrRel E.eRand e res.2.1 ∧ E.absD res.2.2.1 = d2 :=
+      | (.error e, d2) => res.1 = E.nilW ∧ GoTie.encErrRel E.eRand e res.2.1 ∧ E.absD res.2.2.1 = d2 :=
   GoTie.encrypt_tie P E d rs tape
 
 /-- `age.GenerateX25519Identity`, translated with crypto/rand as a tape: the secret key is exactly
